@@ -186,6 +186,31 @@ def gen_tiny(r, cid, allow, kinds=KINDS_ALL, mode="wrapping", final="drop"):
     return dict(id=cid, env=env, progs=progs, final=final, seed=0, gen="random", sched=None)
 
 
+def gen_bufseq(r, cid, mode):
+    """buffered chunk iterators that are consumed partly: the re-used buffer of the wrapped iterator, short last chunks"""
+    kind = r.weighted([("iter", 7), ("vec", 1), ("array", 1), ("slice", 1)])
+    c = r.weighted([(2, 3), (3, 3), (4, 3), (5, 1)])
+    m = r.weighted([(1, 3), (2, 3), (3, 1)])
+    i = r.below(c)
+    ln = min(12, m * c + i)
+    owning = (kind in ("vec", "array")) or (kind == "iter" and r.chance(1, 2))
+    hint = r.choice(["exact", "inexact", "none"]) if kind == "iter" else "exact"
+    env = mk_env(kind, ln, hint=hint, owning=owning, mode=mode)
+    nt = r.weighted([(1, 3), (2, 2)])
+    progs = []
+    for t in range(nt):
+        p = ["bufnew:%d" % c]
+        for _ in range(r.weighted([(2, 2), (3, 3), (4, 3), (6, 1)])):
+            p.append("bufnext:%d" % r.weighted([(0, 2), (1, 3), (max(1, c - 1), 2), (c, 2), (c + 5, 4)]))
+            if r.chance(1, 6):
+                p.append("next:" + r.choice(["idval", "val"]))
+        p.append("bufdrop")
+        progs.append(p)
+    fin = r.weighted([("drop", 2), ("seq:%d" % r.weighted([(0, 1), (1, 1), (100, 3)]), 2)])
+    return dict(id=cid, env=env, progs=progs, final=fin, seed=r.below(1 << 30),
+                gen=r.weighted([("random", 4), ("pct", 2), ("rr", 1), ("solo", 3)]), sched=None)
+
+
 # ---------------------------------------------------------------- boundary stream (C16)
 
 def boundary_values():
@@ -213,7 +238,7 @@ def gen_boundary(r, cid, mode):
     else:
         ln = r.choice([0, 1, 2, 3, 5, 8])
         env = mk_env("iter", ln, hint=r.choice(["exact", "inexact", "none"]), owning=r.chance(1, 2), mode=mode)
-    sizes = [0, 1, max(0, ln - 1) if ln < 1 << 32 else 3, min(ln, UMAX), min(ln + 1, UMAX), UMAX // 2, UMAX - 3, UMAX]
+    sizes = [0, 1, max(0, ln - 1) if ln < 1 << 32 else 3, min(ln, UMAX), min(ln + 1, UMAX), UMAX // 2, 1 << 63, 1 << 62, UMAX - 3, UMAX]
     p = []
     for _ in range(r.weighted([(1, 2), (2, 3), (3, 3), (5, 1)])):
         f = r.weighted([("chunk", 6), ("next", 3), ("buf", 3), ("skip", 1), ("len", 2), ("loop0", 1), ("buf0", 1)])
@@ -225,7 +250,7 @@ def gen_boundary(r, cid, mode):
             c = r.choice([s for s in sizes if s > 0])
             if env["kind"] == "iter":
                 c = min(c, r.choice([1, 2, 7, 4096]))
-            p += ["bufnew:%d" % c, "bufnext:%d" % r.choice([0, 1, 3, 8]), "bufdrop"]
+            p += ["bufnew:%d" % c] + ["bufnext:%d" % r.choice([0, 1, 3, 8]) for _ in range(r.weighted([(1, 3), (2, 3), (4, 2), (5, 1)]))] + ["bufdrop"]
         elif f == "skip":
             p.append("skip")
         elif f == "len":
@@ -247,7 +272,14 @@ def stream(prop, seed, n, mode="wrapping"):
     out = []
     for i in range(n):
         cid = "%s-%s-%d" % (prop, mode[0], i)
-        if prop in ("C01", "C02", "C03", "C04"):
+        if prop in ("C01", "C02", "C03", "C04", "C08", "C15") and r.chance(1, 5):
+            c = gen_bufseq(r, cid, mode)
+        elif prop in ("C08", "C10", "C13", "C15") and r.chance(1, 8):
+            c = gen_boundary(r, cid, mode)
+            if prop == "C13" and c["env"]["kind"] == "slice":
+                c["env"]["adaptor"] = r.choice(["cloned", "copied"])
+                c["env"]["owning"] = False
+        elif prop in ("C01", "C02", "C03", "C04"):
             c = gen_conc(r, cid, PULLS_LEN if prop == "C04" else PULLS, mode=mode, adaptors=r.chance(1, 5))
         elif prop == "C05":
             tail = [r.choice(["next:val", "chunk:2:9", "next:idval", "len", "more"]) for _ in range(r.below(3) + 1)]
